@@ -316,12 +316,13 @@ def rank(kind):
 INV_SORT = {
     "C12": lambda cfg, i: (str(cfg.ctx.get(i)), str(cfg.act.get(i))),    # keep the order inside an action
     "C13": lambda cfg, i: (str(cfg.ctx.get(i)),),                         # keep the order inside a context
-    "C06": None, "C19": None, "C11": None, "C18": None,                    # keep the log as it is
+    "C06": None, "C19": None, "C11": None, "C18": None, "C04": None,       # keep the log as it is (C04: merged values come
+                                                                           # after the readings they are merged from)
 }
 
 
-def sort_block(prop, cfg, facts):
-    inv_key = INV_SORT.get(prop, lambda cfg, i: (i,))
+def sort_block(prop, cfg, facts, keep_log=False):
+    inv_key = None if keep_log else INV_SORT.get(prop, lambda cfg, i: (i,))
 
     def key(f):
         kind, text = f[1], f[2]
@@ -347,13 +348,51 @@ def view(prop, cfg, trace):
     return out
 
 
-def compare(prop, sc, impl_trace, model_trace):
+# Strict reading (used for the wide streams, where every mechanism of the crate is in play at once): every fact that is not
+# an output of the property counts as upstream, and the facts of a block are read in dataflow order — script, invocations,
+# polled state and value, event flags, deliveries, durations, the rest.  A scenario is then attributed to the property only
+# if the very first difference between the two traces is one of the property's own output facts.
+STRICT_RANK = {"pp": 1.7, "ps": 1.7, "pv": 1.7, "pvd": 1.7, "pe": 1.8, "sup": 1.8, "pd": 2.5}
+STRICT_DROP = {"invorder", "evalorder", "glists", "rcp", "dpc", "dpd", "hasw", "pp", "pvd", "sup", "evb", "gorder", "gsets"}
+
+
+# output facts a property shares with the condition law / the event table are not claimed in the strict reading
+STRICT_NOT_OUT = {"C07": {"ps", "pd"}, "C09": {"ps", "dk", "ck"}, "C14": {"ps", "dpc", "dpd"}, "C02": {"dk"}}
+
+
+def strict_view(prop, cfg, trace):
+    base = CLASS[prop]["cls"]
+    not_out = STRICT_NOT_OUT.get(prop, set())
+
+    def cls(k):
+        c = base(k)
+        return None if (c == "out" and k in not_out) else c
+    out = []
+    for btype, facts in explode(cfg, trace):
+        tagged = []
+        for k, x in facts:
+            c = cls(k)
+            if c != "out":
+                if k in STRICT_DROP:
+                    continue            # derived facts: their sources are in the list already
+                c = "up"
+            tagged.append((c, k, x))
+        blk = sort_block(prop, cfg, tagged, keep_log=True)
+        blk.sort(key=lambda f: STRICT_RANK.get(f[1], rank(f[1])))
+        out.append(blk)
+    return out
+
+
+def compare(prop, sc, impl_trace, model_trace, strict=False):
     """-> (verdict, detail) with verdict in {'same', 'out', 'up'}: see the module comment"""
     if impl_trace == model_trace:
         return "same", None
     cfg = Cfg(sc)
-    mode = CLASS[prop]["mode"]
-    vi, vm = view(prop, cfg, impl_trace), view(prop, cfg, model_trace)
+    mode = "seq" if strict else CLASS[prop]["mode"]
+    if strict:
+        vi, vm = strict_view(prop, cfg, impl_trace), strict_view(prop, cfg, model_trace)
+    else:
+        vi, vm = view(prop, cfg, impl_trace), view(prop, cfg, model_trace)
     for bi in range(max(len(vi), len(vm))):
         if bi >= len(vi) or bi >= len(vm):
             # one trace ended early (panic): the panic fact of the previous block decides; otherwise upstream
